@@ -54,6 +54,14 @@ type Case struct {
 	Regress map[string][]AObs `json:"regress"`
 	Agree   bool              `json:"agree"`
 	Causes  []string          `json:"causes"`
+	// Long: an upstream script long enough to cross a grain of the chain as built (getter batch, optimizer flush, series
+	// bound), evaluated by MC_InProcLong at InProc!IP_AsBuilt; Preds then holds the prediction under Cut only.
+	// Merged: the result is observed piecewise (InProc!IP_ObsM): a stream that goes on after a flush comes in pieces.
+	// Sizes: the sizes of the messages predicted to reach the consumer.
+	Long   bool   `json:"long"`
+	LClass string `json:"lclass"`
+	Merged bool   `json:"merged"`
+	Sizes  []int  `json:"sizes"`
 }
 
 type CaseFile struct {
@@ -94,6 +102,16 @@ type CaseResult struct {
 	Plan         string   `json:"plan,omitempty"`
 	Stderr       string   `json:"stderr,omitempty"`
 	DiffKinds    []string `json:"diff_kinds,omitempty"`
+	// Rewritten: messages that changed after the consumer had received them (under partition RewCut), the sending stage,
+	// and what the consumer reads when it reads the messages it holds after the chain has finished
+	Rewritten []Rewrite `json:"rewritten,omitempty"`
+	RewCut    []int     `json:"rew_cut,omitempty"`
+	RewStage  string    `json:"rew_stage,omitempty"`
+	RereadObs *Obs      `json:"reread_obs,omitempty"`
+	// OutSizes: sizes of the messages that reached the consumer under Cut (long cases)
+	OutSizes []int `json:"out_sizes,omitempty"`
+	OutAgain int   `json:"out_again"` // ... and how many of them carried a fingerprint that an earlier message carried
+	Held     int   `json:"held"` // messages kept by the consumer and read again at the end, over all partitions
 }
 
 const baseS = int64(1700000000) // aligned to every duration used
@@ -123,8 +141,34 @@ func lkey(l map[string]string) string {
 	return b.String()
 }
 
+// mergePieces: the pieces shown under one label set, in order of delivery, as one stream (InProc!IP_ObsM).
+func mergePieces(o *Obs) *Obs {
+	if o.K != "ok" {
+		return o
+	}
+	m := &Obs{K: o.K}
+	at := map[string]int{}
+	for _, s := range o.Streams {
+		k := lkey(s.Labels)
+		i, ok := at[k]
+		if !ok {
+			at[k] = len(m.Streams)
+			m.Streams = append(m.Streams, OStream{Labels: s.Labels, Mixed: s.Mixed,
+				Ts: append([]int64{}, s.Ts...), Lines: append([]string{}, s.Lines...), Values: append([]float64{}, s.Values...)})
+			continue
+		}
+		d := &m.Streams[i]
+		d.Ts, d.Lines, d.Values, d.Mixed = append(d.Ts, s.Ts...), append(d.Lines, s.Lines...), append(d.Values, s.Values...), d.Mixed || s.Mixed
+	}
+	return m
+}
+
 // observe turns the output channel into what the consumer shows.
 func observe(res *RunResult, metric bool, rev map[string]string) *Obs {
+	return observeMsgs(res, res.Msgs, metric, rev)
+}
+
+func observeMsgs(res *RunResult, msgs [][]OEntry, metric bool, rev map[string]string) *Obs {
 	if res.ProcErr != "" {
 		return &Obs{K: "error", Err: "Process: " + res.ProcErr}
 	}
@@ -135,7 +179,7 @@ func observe(res *RunResult, metric bool, rev map[string]string) *Obs {
 	var cur *OStream
 	var curFp uint64
 	first := true
-	for _, m := range res.Msgs {
+	for _, m := range msgs {
 		for _, e := range m {
 			if e.Err == "EOF" {
 				continue
@@ -372,12 +416,42 @@ func runCase(idx int, c *Case, cf *CaseFile, rev map[string]string) *CaseResult 
 		jitter[i] = rnd.Int63n(1e9)
 	}
 	rc := RunCtx{FromNs: baseS * 1e9, ToNs: (baseS + cf.DurS*cf.Windows) * 1e9, Limit: c.Lim, Forward: c.Fwd, StepNs: cf.DurS * 1e9}
+	first := true
 	run := func(cut []int) (*Obs, *Built, error) {
 		b, res, err := runChain(c.Q, concretise(c, cf, cut, c.EOF, jitter), rc, true)
 		if err != nil {
 			return nil, nil, err
 		}
-		return observe(res, c.Metric, rev), b, nil
+		view := func(o *Obs) *Obs {
+			if c.Merged {
+				return mergePieces(o)
+			}
+			return o
+		}
+		if first && c.Long {
+			seen := map[uint64]bool{}
+			for _, m := range res.Msgs {
+				r.OutSizes = append(r.OutSizes, len(m))
+				if len(m) > 0 {
+					if seen[m[0].Fp] {
+						r.OutAgain++
+					}
+					seen[m[0].Fp] = true
+				}
+			}
+		}
+		first = false
+		r.Held += len(res.Msgs)
+		if len(res.Rewritten) > 0 && r.Rewritten == nil {
+			r.Rewritten = res.Rewritten
+			if len(r.Rewritten) > 8 {
+				r.Rewritten = r.Rewritten[:8]
+			}
+			r.RewCut = cut
+			r.RewStage = strings.SplitN(b.PlanString, " <- ", 2)[0]
+			r.RereadObs = view(observeMsgs(res, res.Reread, c.Metric, rev))
+		}
+		return view(observe(res, c.Metric, rev)), b, nil
 	}
 	o, b, err := run(c.Cut)
 	if err != nil {
@@ -391,7 +465,7 @@ func runCase(idx int, c *Case, cf *CaseFile, rev map[string]string) *CaseResult 
 	}
 	r.Obs = o
 	r.Partitions = 1
-	r.MatchPred = len(c.Preds) == 1+len(c.Alts) && sameObsExp(o, c.Preds[0], c.Metric)
+	r.MatchPred = (len(c.Preds) == 1+len(c.Alts) || (c.Long && len(c.Preds) == 1)) && sameObsExp(o, c.Preds[0], c.Metric)
 	// the same entries under the other partitions of the case
 	alts := c.Alts
 	partDep := false
@@ -425,7 +499,7 @@ func runCase(idx int, c *Case, cf *CaseFile, rev map[string]string) *CaseResult 
 		}
 		allObs = append(allObs, o2)
 		r.Partitions++
-		if r.MatchPred && !sameObsExp(o2, c.Preds[1+ai], c.Metric) {
+		if r.MatchPred && !c.Long && !sameObsExp(o2, c.Preds[1+ai], c.Metric) {
 			r.MatchPred = false
 		}
 		if !sameObs(o, o2, c.Metric) {
@@ -434,10 +508,29 @@ func runCase(idx int, c *Case, cf *CaseFile, rev map[string]string) *CaseResult 
 			r.PartCuts = append(r.PartCuts, cut)
 		}
 	}
+	if r.Rewritten != nil {
+		// whatever the consumer read on receipt: a message it held was written into afterwards
+		r.Kind = "rewritten"
+		r.MatchPred = false
+		r.DiffKinds = []string{"message-changed-after-delivery"}
+		if long := r.Obs; long != nil && c.Long {
+			r.Obs = brief(long)
+		}
+		r.RereadObs = brief(r.RereadObs)
+		return r
+	}
 	if sameObsExp(o, c.Exp, c.Metric) && !partDep {
 		r.OK = true
 		r.Obs = nil
 		return r
+	}
+	if c.Long {
+		defer func() {
+			r.Obs = brief(r.Obs)
+			for i := range r.PartObs {
+				r.PartObs[i] = brief(r.PartObs[i])
+			}
+		}()
 	}
 	switch {
 	case !sameObsExp(o, c.Exp, c.Metric):
@@ -459,6 +552,30 @@ func runCase(idx int, c *Case, cf *CaseFile, rev map[string]string) *CaseResult 
 		r.DiffKinds = uniq(r.DiffKinds)
 	}
 	return r
+}
+
+// brief keeps the head of every stream of a long result (the result file is for reading).
+func brief(o *Obs) *Obs {
+	if o == nil {
+		return nil
+	}
+	b := &Obs{K: o.K, Err: o.Err}
+	for _, s := range o.Streams {
+		n := len(s.Ts)
+		if n <= 12 {
+			b.Streams = append(b.Streams, s)
+			continue
+		}
+		t := OStream{Labels: s.Labels, Mixed: s.Mixed, Ts: append([]int64{}, s.Ts[:12]...)}
+		if len(s.Lines) >= 12 {
+			t.Lines = append(append([]string{}, s.Lines[:12]...), fmt.Sprintf("... %d values in all", n))
+		}
+		if len(s.Values) >= 12 {
+			t.Values = append([]float64{}, s.Values[:12]...)
+		}
+		b.Streams = append(b.Streams, t)
+	}
+	return b
 }
 
 func uniq(s []string) []string {
@@ -522,6 +639,15 @@ type ChainOut struct {
 	Candidates  int            `json:"candidates"`   // cases where the transcription differs from the definition
 	Confirmed   int            `json:"confirmed"`    // candidates on which the real chain indeed differs from the definition
 	InfraErrors []string       `json:"infra_errors"` // planning failures and the like
+	// HeldMessages: messages the consumer kept and read again after the chain had finished
+	HeldMessages int          `json:"held_messages"`
+	LongResults  []LongResult `json:"long_results"`
+}
+
+type LongResult struct {
+	ID       string `json:"id"`
+	OutSizes []int  `json:"out_sizes"`
+	OutAgain int    `json:"out_again"`
 }
 
 // chainMain shards the cases over child processes (a panic in a chain goroutine kills the process).
@@ -634,6 +760,10 @@ func chainMain(fs *flag.FlagSet, args []string) error {
 		}
 		o.Pipelines[c.PID]++
 		o.Replays += r.Partitions
+		o.HeldMessages += r.Held
+		if c.Long {
+			o.LongResults = append(o.LongResults, LongResult{ID: c.ID, OutSizes: r.OutSizes, OutAgain: r.OutAgain})
+		}
 		if !c.Agree {
 			o.Candidates++
 		}
